@@ -207,4 +207,14 @@ Definition MergeFrom (w : cworld) (d : bool) : cworld :=
                 (mkCP [] [] (cache y) 0 [])                                                             (* 406-434, C09_mergefrom_dll_inv *)
     end
   end.
+
+(* Swap 244-251: the two pools exchange parameters (equal here), counter, buffer list head, cache head and cached count *)
+Definition Swap (w : cworld) : cworld := mkCW (fb w) (fc w) (nx w) (fresh w) (returned w) (cp1 w) (cp0 w).
+
+(* move assignment 236-240: pool d = std::move(pool s), s = negb d: MemPool(std::move(s)).Swap(d); the temporary, which now holds
+   d's old state, is destroyed: its destructor (227-234) runs DeallocateAll (blockCount > 1).  Legal only when d has no
+   allocated block (MOMO_EXTRA_CHECK(allocCount == 0) in the destructor): otherwise the model ignores the operation.
+   After DeallocateAll d's record is the empty record, so exchanging the records leaves s empty, as the move constructor does. *)
+Definition MoveAssign (w : cworld) (d : bool) : cworld :=
+  if acount (getp w d) =? 0 then Swap (DeallocateAll w d) else w.
 End Params.
